@@ -374,6 +374,11 @@ func (env *Env) evalCall(cl *Clause, x *ast.CallExpr) Value {
 		o := *env
 		o.st = env.snap
 		was := o.eval(cl, x.Args[0])
+		if cf, ok := cur.(FloatV); ok { // bit-identical, not IEEE ==
+			if wf, ok := was.(FloatV); ok {
+				return BoolV{Eq(cf.T, wf.T)}
+			}
+		}
 		eq, ok := u.valueEq(st, cur, was)
 		if !ok {
 			specFail("unchanged(): incomparable values")
